@@ -215,3 +215,25 @@ def search(seed, broken, budget):
 
 def shrink(case):
     return case
+
+
+# ---- adapters used by C08 / C13 (generic stream checks)
+def open_impl(case, built):
+    from dissect.hypervisor.disk.vdi import VDI
+    parent = VDI(built.files["p"].open()) if "p" in built.files else None
+    return VDI(built.files["a"].open(), parent)
+
+
+def stream_prefix(case, built):
+    pid = "p" if "p" in built.files else "-"
+    return f"vdi.stream a {pid} {case['align']}"
+
+
+def open_line(case, built):
+    pid = "p" if "p" in built.files else "-"
+    return f"vdi.open a {pid}"
+
+
+def truth_reader(case):
+    t = Truth(case["recipe"])
+    return t.size, t.read, 512
